@@ -25,9 +25,9 @@ type Impl[T comparable, P Object[T]] struct {
 	Parse  func(string) (*T, error)
 	Scores []ScoreFn[T]
 	// error identities of the package
-	ErrValue  error // ErrInvalidMetricValue
-	IsBadAbv  func(error) (string, bool)
-	Describe  func(T) string
+	ErrValue error // ErrInvalidMetricValue
+	IsBadAbv func(error) (string, bool)
+	Describe func(T) string
 }
 
 type ScoreFn[T any] struct {
